@@ -202,6 +202,7 @@ def run(rep, facts, tier):
             continue
         loc = G.base_summaries_M(cfg, rep) if name == "M" else {}
         G.check_select(rep, cfg)
+        G.config_hooks(rep, cfg, "C04")
         nid = G.check_identity_forms(rep, cfg, "C04")
         if name == "A":
             rep.floor("identity_forms_A", nid, 5)
